@@ -1153,7 +1153,7 @@ def run(ctx):
         specs = [s for s in specs if any(o in f"{s['harness']}:{'+'.join(s['ops'])}" for o in only.split(","))]
         ctx.cap(f"debug filter VERIF_C19_ONLY={only}")
     # phase 1: root execution of each harness -> subtrees
-    roots = core.pmap(work, [dict(s, root=True) for s in specs])
+    roots = core.pmap(work, [dict(s, root=True) for s in specs], fresh=True)
     ctx.merge(roots, part="roots")
     subtrees = [n["subtrees"] for n in roots.notes if isinstance(n, dict) and "subtrees" in n]
     tasks = []
@@ -1162,7 +1162,8 @@ def run(ctx):
             tasks.append(dict(spec, subtree=tuple(sub)))
     ctx.acc.notes = []
     ctx.log(f"{len(specs)} harnesses, {len(tasks)} first-level subtrees")
-    acc = core.pmap(work, tasks)
+    # (fresh processes: a subtree is named by a position in its root's execution, which was recorded in another process)
+    acc = core.pmap(work, tasks, fresh=True)
     ctx.merge(acc, part="subtrees")
     total = ctx.acc.evaluations
     ctx.cov["states"] = total  # every complete execution is one explored path (stateless search)
